@@ -329,6 +329,47 @@ func runServers(dir string, urls []string, concCopies int, r *rand.Rand) runOut 
 	}
 	srv.Close()
 	tr.CloseIdleConnections()
+	if concCopies > 0 {
+		// bursts: ALL workers ask a FRESH server for the SAME URL at the same instant — the very first requests for
+		// one module version race through the archive cache and the zip cache (par.Cache: only one of them computes,
+		// everybody gets that result).  A few URLs per directory, a few rounds each; the responses join the concurrent
+		// pass and must equal the sequential ones.
+		var burst []string
+		seenB := map[string]bool{}
+		for _, u := range urls {
+			if (strings.HasSuffix(u, ".zip") || strings.HasSuffix(u, ".mod") || strings.HasSuffix(u, ".info")) && !seenB[u] && len(burst) < 4 {
+				seenB[u] = true
+				burst = append(burst, u)
+			}
+		}
+		for _, u := range burst {
+			for round := 0; round < 3; round++ {
+				bs, err := goproxytest.NewServer(dir, "")
+				if err != nil {
+					break
+				}
+				bhost := strings.TrimSuffix(strings.TrimPrefix(bs.URL, "http://"), "/mod")
+				var mu sync.Mutex
+				var wg sync.WaitGroup
+				start := make(chan struct{})
+				for w := 0; w < 24; w++ {
+					wg.Add(1)
+					go func() {
+						defer wg.Done()
+						<-start
+						rp := get(client, bhost, u)
+						mu.Lock()
+						out.conc[u] = append(out.conc[u], rp)
+						mu.Unlock()
+					}()
+				}
+				close(start)
+				wg.Wait()
+				bs.Close()
+				tr.CloseIdleConnections()
+			}
+		}
+	}
 
 	srv2, err := goproxytest.NewServer(dir, "")
 	if err != nil {
